@@ -66,6 +66,8 @@ func main() {
 	flag.BoolVar(&AcceptAbstractSat, "accept-abstract-sat", false, "accept sat answers of abstracted queries as candidate counterexamples (to be confirmed by native replay)")
 	fixCase := flag.String("fix-case", "", "name=val,... pins verifCase values (debugging)")
 	cpuprof := flag.String("cpuprofile", "", "write cpu profile")
+	flag.IntVar(&SolveBudgetS, "solve-budget-s", SolveBudgetS, "wall-clock budget for discharging the obligations of one harness; what is left is reported unknown (0 = unlimited)")
+	flag.IntVar(&TermBudget, "term-budget", TermBudget, "abort a harness run that builds more than this many terms (0 = unlimited)")
 	flag.Parse()
 	if *cpuprof != "" {
 		f, _ := os.Create(*cpuprof)
@@ -207,6 +209,7 @@ func runHarness(prog *ssa.Program, fset0 interface{}, pkg *ssa.Package, name str
 			}
 		}()
 		e.watchLocks, e.inHook = false, false
+		TF.caseStart = TF.next
 		st := &State{heap: map[int]Value{}, ghost: map[string]Value{}}
 		// package initialisers of the repo packages reachable from this package
 		e.runInits(st, pkg)
@@ -225,8 +228,13 @@ func runHarness(prog *ssa.Program, fset0 interface{}, pkg *ssa.Package, name str
 		}
 		e.caseLabel = strings.Join(lbl, ",")
 		hr.Cases++
+		oblsBefore := len(e.obls)
 		if ab := runOnce(); ab != "" {
 			hr.Aborted = ab
+			if strings.Contains(ab, "state explosion") && len(e.obls) > oblsBefore {
+				// the partial obligations of an exploded run carry huge terms and decide nothing
+				e.obls = e.obls[:oblsBefore]
+			}
 			if e.caseLabel != "" {
 				hr.Aborted += " [case " + e.caseLabel + "]"
 			}
@@ -344,7 +352,12 @@ func (e *Engine) runInits(st *State, pkg *ssa.Package) {
 	delete(e.funcsSeen, "init")
 }
 
+// SolveBudgetS bounds the wall-clock time spent on one harness's obligations.
+var SolveBudgetS = 0
+var dischargeStart time.Time
+
 func discharge(pool *SolverPool, hr *HarnessResult, workers, timeoutMs int, dumpDir, second string) {
+	dischargeStart = time.Now()
 	// term construction is single-threaded: build all assert lists first
 	asserts := map[*Obligation][]*Term{}
 	sliced := map[*Obligation][]*Term{}
@@ -394,6 +407,11 @@ func discharge(pool *SolverPool, hr *HarnessResult, workers, timeoutMs int, dump
 				}
 				if o.Kind != "reach" && o.goal.IsTrue() {
 					o.Verdict, o.Solver, o.OK = "unsat", "simplifier", true
+					continue
+				}
+				if SolveBudgetS > 0 && time.Since(dischargeStart) > time.Duration(SolveBudgetS)*time.Second {
+					// never a success: reported as unknown (INCONCLUSIVE)
+					o.Verdict, o.Solver, o.OK, o.Err = "unknown", "budget", false, fmt.Sprintf("not attempted: the solving budget of %d s for this harness was used up", SolveBudgetS)
 					continue
 				}
 				as := asserts[o]
